@@ -31,6 +31,9 @@ def run(ck):
     rule_C(ck, lib, sk)
     rule_I(ck, lib, sk, "C08-I")
     rule_R(ck, lib)
+    # the bytes of an unfinished message are kept and offered again from their start: process's buffer discipline
+    import c07
+    c07.rule_K(ck, lib, "C08-P")
 
 
 def value_ctor(sk, x):
